@@ -583,7 +583,10 @@ fn worker_loop<F: Family>(
         Tier::Quick => 600,
         Tier::Thorough => 3000,
     };
-    config.max_shrink_time = 0;
+    config.max_shrink_time = match rc.tier {
+        Tier::Quick => 30_000,
+        Tier::Thorough => 180_000,
+    };
     config.max_global_rejects = 1_000_000;
     config.max_local_rejects = 1_000_000;
     config.verbose = 0;
